@@ -122,13 +122,36 @@ impl SubscriberQueue {
         Self { queue, unflushed }
     }
 
-    pub(crate) fn try_send(&mut self, item: Message) -> ZmqResult<()> {
+    /// `Ok(true)` when the item is on its way, `Ok(false)` when part of it is still buffered
+    pub(crate) fn try_send(&mut self, item: Message) -> ZmqResult<bool> {
         let sent = self.queue.lock().as_mut().try_send(item);
         if !matches!(sent, Ok(true)) {
             let _ = self.unflushed.try_send(());
         }
-        sent.map(|_| ())
+        sent
     }
+}
+
+/// How many publishes in a row may leave something buffered before the publisher gives control
+/// back once: a runtime's cooperative budget refuses the writes of a task that does not (they
+/// look like back-pressure), and the flusher tasks cannot run while the publisher keeps the
+/// thread - a tight publishing loop would fill the buffers of subscribers whose connections
+/// take everything, and drop.
+pub(crate) const UNFLUSHED_PUBLISHES_BEFORE_YIELD: usize = 16;
+
+/// Gives control back to the executor once.
+pub(crate) async fn yield_once() {
+    let mut yielded = false;
+    futures::future::poll_fn(|cx| {
+        if yielded {
+            std::task::Poll::Ready(())
+        } else {
+            yielded = true;
+            cx.waker().wake_by_ref();
+            std::task::Poll::Pending
+        }
+    })
+    .await
 }
 
 /// Puts a connection into a peer table and returns with the peer's bucket of the table still
